@@ -6,7 +6,7 @@ from ..finite import Unrecognised, ev_int
 from ..linform import lin, show_lin
 from ..program import AnalysisError
 from ..rules import calls, is_call, is_mcall, mcalls, mentions, mentions_any
-from ..terms import C, Evaluator, G, P, is_t, mk_proj, mk_slice, show, subterms
+from ..terms import C, Evaluator, G, P, is_t, mk_proj, mk_slice, show, subterms, mk_cmp, mk_phi
 from .common import main_ret, Obs, arms_of, call0, choices_of, cond_has, ctor_fields, is_zero, retval_of, score_of, tuple_n
 from .distribution import is_tag
 
@@ -112,7 +112,7 @@ def analyse(obs: Obs, prog):
         obs.add(props | {"C01", "C02", "C12"}, "SCORE-AGG", inst + "/score", f.get("score") == jsum(("stack", score_of(inner_elem))), derived=f.get("score"), expected="sum over iterations of the kernel trace's score", where=where)
         obs.add(props | {"C01", "C12"}, "TRACE-INNER", inst + "/inner", f.get("inner") == ("stack", inner_elem), derived=f.get("inner"), expected="stacked kernel traces (iteration i under index i)", where=where)
         chm = f.get("chm")
-        okc = is_t(chm, "phi") and chm[1] == ("cmp", "==", length, C(0)) and is_call(chm[2], "empty") and chm[3] == ("stack", choices_of(inner_elem))
+        okc = is_t(chm, "phi") and chm[1] == mk_cmp("==", length, C(0)) and is_call(chm[2], "empty") and chm[3] == ("stack", choices_of(inner_elem))
         obs.add(props | {"C01", "C12", "C17"}, "TRACE-CHOICES", inst + "/choices", okc, derived=chm, expected="length == 0 ? empty : vmap(get_choices)(kernel traces)", where=where)
         obs.add(props | {"C01", "C12"}, "TRACE-RETVAL", inst + "/retval", f.get("retval") == retval_term, derived=f.get("retval"), expected=show(retval_term)[:300], where=where)
 
